@@ -313,7 +313,7 @@ def run_case(case, acc):
                     check_seq(content_of(fam, n), kw, acc, fam)
         # a message given as parts of two or more modes: refused (the function says so) or a sequence that reassembles to the
         # concatenation - never a sequence encoded in the mode of the first part only
-        for parts in (['123', 'abc'], ['12', 'AB'], ['AB', '12', 'cd'], ['1', 'a'] * 8, ['\u70b9\u8317', '12'], ['12', 'AB', '34', 'CD'] * 6):
+        for parts in (['abc', '123'], ['a', '1'] * 8, ['xy', 'AB'], ['123', 'abc'], ['12', 'AB'], ['AB', '12', 'cd'], ['1', 'a'] * 8, ['\u70b9\u8317', '12'], ['12', 'AB', '34', 'CD'] * 6):
             for kw in ({'symbol_count': 2}, {'symbol_count': 3, 'error': 'H'}, {'version': 1}, {'version': 1, 'error': 'H'}, {'symbol_count': 1}):
                 case2 = ('misc',)
                 try:
